@@ -160,6 +160,33 @@ func c20Oracle(t *trie.Trie, set map[string]bool, universe, prefixes []string) (
 		if _, _, ok2 := ac.AutoComplete()(c20Term, p, len(p), 'x'); ok2 {
 			return "complete-nontab", "callback acted on a non-tab key"
 		}
+		// the same prefix typed with blanks around it, and with the cursor before the end of the line: what is
+		// completed is exactly what is before the cursor
+		for _, line := range []string{" " + p, "\t" + p, p + " ", p + p} {
+			for pos := max(0, len(line)-1); pos <= len(line); pos++ {
+				typed := line[:pos]
+				var w2 []string
+				for _, w := range ref {
+					if strings.HasPrefix(w, typed) {
+						w2 = append(w2, w)
+					}
+				}
+				nl, _, ok := ac.AutoComplete()(c20Term, line, pos, '\t')
+				if ok != (len(w2) > 0) {
+					return "complete-ok", fmt.Sprintf("completion of %q at %d ok=%v with matches %q", line, pos, ok, w2)
+				}
+				if ok && !strings.HasPrefix(nl, typed) {
+					return "complete-extends", fmt.Sprintf("completion of %q at %d returned %q which does not extend what was typed", line, pos, nl)
+				}
+				if ok {
+					for _, w := range w2 {
+						if !strings.HasPrefix(w, nl) {
+							return "complete-undefined", fmt.Sprintf("completion of %q at %d returned %q, not a prefix of defined %q", line, pos, nl, w)
+						}
+					}
+				}
+			}
+		}
 	}
 	return "", ""
 }
@@ -441,7 +468,19 @@ func c20IlRun(idx []int) (string, string) {
 	ops := c20IlOps()
 	t := trie.NewTrie()
 	set := map[string]bool{}
+	type held struct {
+		step int
+		got  []string // the slice the query returned (kept by the caller, as a completion menu does)
+		copy string
+	}
+	var answers []held
 	for step, x := range idx {
+		// answers of earlier queries stay what they were, whatever is inserted or asked afterwards
+		for _, h := range answers {
+			if strings.Join(h.got, "\x00") != h.copy {
+				return "interleaved:earlier-answer-changed", fmt.Sprintf("the list returned at step %d reads %q at step %d, it was %q", h.step, h.got, step, strings.Split(h.copy, "\x00"))
+			}
+		}
 		o := ops[x]
 		switch o.kind {
 		case 'i':
@@ -463,9 +502,15 @@ func c20IlRun(idx []int) (string, string) {
 			if strings.Join(got, "\x00") != strings.Join(want, "\x00") {
 				return "interleaved:prefixall-set", fmt.Sprintf("step %d: PrefixAll(%q)=%q, reference %q", step, o.arg, got, want)
 			}
+			answers = append(answers, held{step, got, strings.Join(got, "\x00")})
 			if len(want) > 0 && l != lcp(want) {
 				return "interleaved:prefixall-len", fmt.Sprintf("step %d: PrefixAll(%q) length %d, reference %d for %q", step, o.arg, l, lcp(want), want)
 			}
+		}
+	}
+	for _, h := range answers {
+		if strings.Join(h.got, "\x00") != h.copy {
+			return "interleaved:earlier-answer-changed", fmt.Sprintf("the list returned at step %d reads %q at the end, it was %q", h.step, h.got, strings.Split(h.copy, "\x00"))
 		}
 	}
 	return "", ""
